@@ -31,7 +31,7 @@ PACINGS = {
     "dst_idle2": {"dst_idle": 2},
     "src_idle2": {"src_idle": 2, "dst_calls": 2},
 }
-IDW = [(1, 1), (2, 2), (4, 4), (1, 2), (2, 1), (4, 1), (1, 4)]
+IDW = [(1, 1), (2, 2), (4, 4), (1, 2), (2, 1), (4, 1), (1, 4), (8, 8), (1, 8), (8, 2)]
 SEQW = [8, 16, 32]
 SEGS = [1, 2, 5, 64, None]
 CKSS = ["null", "modular", "crc32", "crc32c"]
@@ -81,7 +81,7 @@ def gen_cases(tier, seed):
                 itertools.product(SEGS, range(7), ["min", "mid", "big"], ["ack", "unack"], [False, True], CKSS, [False, True], DESTS)
             ):
                 j = i + rot * 7919 + seed
-                cases.append(mk(seg, si, mp, mode, closure, cks, crc, IDW[j % 7], SEQW[(j // 7) % 3], bool((j // 21) % 2), dest,
+                cases.append(mk(seg, si, mp, mode, closure, cks, crc, IDW[j % len(IDW)], SEQW[(j // 7) % 3], bool((j // 21) % 2), dest,
                                 pac_names[(j // 42) % len(pac_names)], content=j % 5))
         nrand = 20000
     else:
@@ -90,7 +90,7 @@ def gen_cases(tier, seed):
             if i % 23 != (seed % 23):
                 continue
             j = i + seed
-            cases.append(mk(seg, si, mp, mode, closure, cks, crc, IDW[j % 7], SEQW[(j // 7) % 3], bool((j // 21) % 2), dest,
+            cases.append(mk(seg, si, mp, mode, closure, cks, crc, IDW[j % len(IDW)], SEQW[(j // 7) % 3], bool((j // 21) % 2), dest,
                             pac_names[(j // 42) % len(pac_names)], content=j % 5))
         nrand = 2500
     for _ in range(nrand):
